@@ -74,7 +74,7 @@ TLBegin == /\ Ev.e = "LBegin"
            /\ ids' = {<<0, UTC>>} /\ UNCHANGED <<bad, sInFac, sCalled, sPending, sIds>>
 TSkip == /\ Ev.e \in {"LEnd"} /\ UNCHANGED <<vars, bad, ids, sInFac, sCalled, sPending, sIds>>
 TAttack == /\ Ev.e = "Attack"
-           /\ LET ok == Ev.overlap = 0 /\ Ev.maxcalls <= 1 /\ Ev.wrongthread = 0 IN
+           /\ LET ok == Ev.overlap = 0 /\ Ev.maxcalls <= 1 /\ Ev.wrongthread = 0 /\ Ev.agree = 1 /\ Ev.okmismatch = 0 IN
                 /\ bad' = IF ok THEN bad ELSE bad + 1
                 /\ IF ok THEN TRUE ELSE Reject(l, "Attack")
            /\ UNCHANGED <<vars, ids, sInFac, sCalled, sPending, sIds>>
